@@ -148,22 +148,6 @@ theorem numpy_left_not_deferring_strips_unit (env : Env) (op : Op) (ks : List Ra
 
 /-! ### non-vacuity: concrete instances over the example database of `OpsLemmas` -/
 
-example : Normal exEnv exQ := exQ_normal
-
-example : binop exEnv true .mul (.num true 3) (.array exQ .tuple [1, 5 / 2]) = .ok (.array exQ .tuple [3, 15 / 2]) := by
-  decide +kernel
-
-example : binop exEnv true .floordiv (.array exQ .list [7, -7]) (.num false 2) = .ok (.array exQ .list [3, -4]) := by
-  decide +kernel
-
-example : binop exEnv true .div (.num false 1) (.scalar exQ 4) = .ok (.scalar [⟨101, 12, -1⟩, ⟨103, 21, 2⟩] (1 / 4)) := by
-  decide +kernel
-
-example : binop exEnv true .sub (.ndarr [10, 20]) (.array exQ .list [1, 2]) = .ok (.array exQ .nd [9, 18]) := by
-  decide +kernel
-
-example : binop exEnv true .div (.array exQ .nd [1, 2]) (.num false 0) = .error .other := by decide +kernel
-
 /-- why `Normal` is needed for Arrays: a hand-built dict with two units (12 = 1/100 of 11) of one
 quantity type is converted by `_MatchQuantities` even when the other operand is a number.
 This is the model-side witness of the KNOWN FINDING `C09-array-number-mixed-units-of-one-type`
